@@ -61,6 +61,8 @@ class ModelMixin:
             return [ok(len(v), st)]
         if isinstance(v, BytesV):
             return [ok(z3.simplify(to_int_term(v.hi) - to_int_term(v.lo)) if (is_sym(v.hi) or is_sym(v.lo)) else v.hi - v.lo, st)]
+        if is_sym(v) and z3.is_string(v):
+            return [ok(z3.Length(v), st)]
         if isinstance(v, Ref):
             h = st.obj(v)
             if h.kind in ('list', 'dict', 'set', 'tuple'):
